@@ -159,6 +159,13 @@ def run(chk):
         for c in sorted([x for x in ast.walk(f.node) if isinstance(x, ast.Call) and (dotted(x.func) or "").startswith("self.")], key=lambda x: (x.lineno, x.col_offset)):
             got.append((dotted(c.func)[5:], [src(a) for a in c.args]))
         chk.check(got == exp, "R3", f"{L}:LssMaster.{name} | specifier and arguments", f.loc(), f"calls {got}; expected {exp}")
+        # what is handed on is what the caller gave: the parameters are not re-bound on the way
+        from ..facts import assigned_targets
+        for st_ in own_nodes(f.node):
+            if isinstance(st_, (ast.Assign, ast.AugAssign, ast.AnnAssign)):
+                hit = sorted(set(f.params[1:]) & assigned_targets(st_))
+                chk.check(not hit, "R3", f"{L}:LssMaster.{name} | arguments reach the request unchanged", f.loc(st_),
+                          f"`{src(st_)[:70]}` replaces {', '.join(hit)} before the request is built: the frame carries another value than the one asked for")
     sel = repo.func(L, "LssMaster.send_switch_state_selective", "C18.R3")
     fsel = ff_for(chk, sel, "C18.R3")
     rets = [n_ for n_ in own_nodes(sel.node) if isinstance(n_, ast.Return)]
